@@ -8,6 +8,7 @@ and calls mapped through an explicit table.  ANYTHING else raises Unsupported: a
 cannot express is a broken tie, never a silent skip.
 """
 import ast
+import os
 from fractions import Fraction
 
 
@@ -210,6 +211,9 @@ def write_if_changed(path, text):
             return False
     except IOError:
         pass
+    d = os.path.dirname(path)
+    if d and not os.path.isdir(d):
+        os.makedirs(d, exist_ok=True)
     with open(path, 'w') as f:
         f.write(text)
     return True
